@@ -409,19 +409,23 @@ fn parse_sep_end_by<'t, Item>(
     end: impl Fn(Context<'t>) -> ParseResult<'t, bool>,
     item: impl Fn(Context<'t>) -> ParseResult<'t, Item>,
 ) -> ParseResult<'t, Vec<Item>> {
-    let (end_ctx, is_end) = end(ctx)?;
-    if is_end {
-        return Ok((end_ctx, vec![]));
+    // A loop - one stack frame per item is too much for a long list.
+    let mut ctx = ctx;
+    let mut res = Vec::new();
+    loop {
+        let (end_ctx, is_end) = end(ctx)?;
+        if is_end {
+            return Ok((end_ctx, res));
+        }
+        let (after_item, i) = item(ctx)?;
+        res.push(i);
+        let (end_ctx, is_end) = end(after_item)?;
+        if is_end {
+            return Ok((end_ctx, res));
+        }
+        let (after_sep, _) = sep(after_item)?;
+        ctx = after_sep;
     }
-    let (ctx, i) = item(ctx)?;
-    let (end_ctx, is_end) = end(ctx)?;
-    if is_end {
-        return Ok((end_ctx, vec![i]));
-    }
-    let (ctx, _) = sep(ctx)?;
-    let (ctx, mut res) = parse_sep_end_by(ctx, sep, end, item)?;
-    res.insert(0, i);
-    Ok((ctx, res))
 }
 
 #[macro_export]
